@@ -684,6 +684,22 @@ func lenOfField(v ssa.Value, fname string) ssa.Value {
 // loopSkipsRecursion: in the range loop over a child map, can an iteration
 // complete without the walker's recursive call and without passing one of
 // the allowed skip edges?
+// directContinue: from block b the loop's Next is reached through unconditional jumps only.
+func directContinue(b *ssa.BasicBlock) bool {
+	for n := 0; n < 8; n++ {
+		for _, i := range b.Instrs {
+			if _, ok := i.(*ssa.Next); ok {
+				return true
+			}
+		}
+		if _, ok := b.Instrs[len(b.Instrs)-1].(*ssa.Jump); !ok || len(b.Succs) != 1 {
+			return false
+		}
+		b = b.Succs[0]
+	}
+	return false
+}
+
 func loopSkipsRecursion(c *Ctx, f *ssa.Function, scc map[*ssa.BasicBlock]bool, mname string) string {
 	// the Next instruction of this loop
 	var next *ssa.Next
@@ -744,7 +760,10 @@ func loopSkipsRecursion(c *Ctx, f *ssa.Function, scc map[*ssa.BasicBlock]bool, m
 					}
 				}
 				if isChildElem {
-					return true
+					// ... but only as the whole decision: the edge leads straight to the next iteration. A nil
+					// test that is merely the first half of a longer condition ("has a counterpart and nothing new
+					// came in: reuse it") does not license the skip the second half decides
+					return directContinue(to)
 				}
 			}
 		}
